@@ -374,13 +374,13 @@ func (c *Ctx) ruleG1b(sites []goSite) {
 			inGo := false
 			for _, s := range u.sends {
 				for g := s.Parent(); g != nil; g = g.Parent() {
-					if sp, _ := goSpawnOf(g); sp != nil {
+					if sp, _ := c.goSpawnOf(g); sp != nil {
 						inGo = true
 					}
 				}
 				// or in a function called from a goroutine closure of f
 				for _, cl := range withClosures(f) {
-					if sp, _ := goSpawnOf(cl); sp != nil {
+					if sp, _ := c.goSpawnOf(cl); sp != nil {
 						eachCall(cl, func(call ssa.CallInstruction) {
 							if call.Common().StaticCallee() == s.Parent() {
 								inGo = true
@@ -486,7 +486,30 @@ func (c *Ctx) ruleG3() {
 	}
 	// fields whose value reaches an Emitter.Close() in Close
 	closed := map[*types.Var]bool{}
-	for _, g := range withClosures(closeFn) {
+	// Close itself, its function literals, and the same-package functions it calls statically
+	// (two levels): the closing loop may sit in a helper
+	var closeScope []*ssa.Function
+	seenCS := map[*ssa.Function]bool{}
+	var addScope func(f *ssa.Function, depth int)
+	addScope = func(f *ssa.Function, depth int) {
+		if f == nil || f.Blocks == nil || seenCS[f] || depth > 2 {
+			return
+		}
+		seenCS[f] = true
+		for _, g := range withClosures(f) {
+			closeScope = append(closeScope, g)
+			eachCall(g, func(call ssa.CallInstruction) {
+				if _, isGo := call.(*ssa.Go); isGo {
+					return
+				}
+				if h := call.Common().StaticCallee(); h != nil && h.Pkg == f.Pkg && h.Parent() == nil {
+					addScope(h, depth+1)
+				}
+			})
+		}
+	}
+	addScope(closeFn, 0)
+	for _, g := range closeScope {
 		var closeRecv []ssa.Value
 		eachCall(g, func(call ssa.CallInstruction) {
 			if c.isMethodOn(call, "Close", ifaceEmitter) {
